@@ -101,7 +101,7 @@ def random_scenario(rng: random.Random, n_callers: int, rich: bool = True) -> di
     tt = lambda: rng.choice([0.0, 0.005, 0.011, 0.02, 0.3, 0.5, 0.5 + EPS, 0.5 - EPS, 0.7, 1.5, 2.0])  # noqa: E731
     if r < 0.25:
         t0 = tt()
-        events.append({"t": t0, "ev": "conn_lost"})
+        events.append({"t": t0, "ev": "conn_lost", "why": rng.choice([None, None, "serial", "transport"])})
         if rng.random() < 0.6:
             events.append({"t": t0 + rng.choice([1e-7, 0.01, 0.5, 3.0]), "ev": "conn_made"})
     elif r < 0.4:
